@@ -8,5 +8,7 @@ CONSTANTS
   MaxTypes = 2
   StropMode = "prefix"
   GenNsChoices = {FALSE}
+  Spellings = {"rel"}
+  CanonNs = FALSE
 INVARIANT Emit
 CHECK_DEADLOCK FALSE
